@@ -84,3 +84,24 @@ def c13_v2_rowfilter(case, out):
         return False
     return ("read_data_page_v2" in sig or sig.startswith(("alignment|", "mask_alignment|", "mask_rows", "lost_rows|",
                                                          "extra_rows|", "duplicate_rows|", "order")))
+
+
+def _cat_lists_differ(batches, partition_on=()):
+    names = [c["name"] for c in batches[0]["cols"] if c["kind"] == "category" and c["name"] not in partition_on]
+    for nm in names:
+        lists = [next(c["cats"] for c in b["cols"] if c["name"] == nm) for b in batches]
+        if any(l != lists[0] for l in lists[1:]):
+            return True
+    return False
+
+
+@predicate
+def c07_categorical_dictionaries(case, out):
+    """Row groups written from batches whose categorical columns list different categories: every
+    row is labelled through the dictionary of the last row group read."""
+    sig = out["sig"]
+    if not (sig.startswith("value|category:") or sig.startswith("read_raised|stepN") or sig.startswith("celltype|category")):
+        return False
+    if sig.startswith("read_raised") and "category" not in out.get("detail", "").lower() and "IndexError" not in sig:
+        return False
+    return _cat_lists_differ(case["batches"], case.get("partition_on") or ())
